@@ -187,11 +187,11 @@ Proof.
                     rewrite ?number_pnum; cbn [bind]; rewrite ?number_pnum; cbn [bind];
                     rewrite ?number_pnum; cbn [bind]; rewrite ?number_pnum; cbn [bind];
                     rewrite ?map_res_pnum, ?map_res_tda; cbn [bind rmap]; reflexivity
-                   |split; [exact Hs|discriminate]]).
+                   |split; [first [exact Hs|intros q Hq; discriminate Hq]|discriminate]]).
   - (* Close *)
     destruct rest as [|[] rest']; inversion H; subst; clear H;
-      try (exists last; split; [reflexivity|split; [exact Hs|discriminate]]).
-    destruct w; inversion H1; subst; exists last; (split; [reflexivity|split; [exact Hs|discriminate]]).
+      try (exists last; split; [reflexivity|split; [intros q Hq; discriminate Hq|discriminate]]).
+    destruct w; inversion H1; subst; exists last; (split; [reflexivity|split; [intros q Hq; discriminate Hq|discriminate]]).
   - (* MoveTo *)
     destruct p as [x y]. inversion H; subst; clear H. exists (mkpt x y). split.
     + cbn [add]; unfold num2; cbn [px py app]. rewrite point_num2. reflexivity.
@@ -443,3 +443,82 @@ Example demo_bytes : ser_ops demo_ops =
       bs "BT" ++ [10] ++ bs "3.5 4 TD" ++ [10] ++ bs "1 2 (a\(b) " ++ [34; 10] ++ bs "<c8> '" ++ [10] ++
       bs "/Perceptual ri" ++ [10] ++ bs "/Sh0 sh" ++ [10] ++ bs "5 Tr" ++ [10] ++ bs "ET" ++ [10]).
 Proof. vm_compute. reflexivity. Qed.
+
+(* ------------------------------------------------------------------ *)
+(** * the writer's current point is the standard's whenever it has one (C08-i)
+
+    ISO 32000-1 8.5.2.1 / Table 59: m sets the current point and begins a subpath; l, c, v, y move it; h moves it
+    to the start of the subpath; re leaves it at the rectangle's corner (x y m … h); the path-painting operators
+    and n end the path: no current point. *)
+Definition iso_cp_step (st : option point * option point) (o : op) : option point * option point :=
+  let '(cp, start) := st in
+  match o with
+  | OMoveTo p => (Some p, Some p)
+  | OLineTo p => (Some p, start)
+  | OCurveTo _ _ p => (Some p, start)
+  | OClose => (start, start)
+  | ORect x y _ _ => (Some (mkpt x y), Some (mkpt x y))
+  | OEndPath | OStroke | OFill _ | OFillAndStroke _ => (None, None)
+  | _ => (cp, start)
+  end.
+
+(** [below cur cp]: what the writer believes is not more than the standard says *)
+Definition below (cur cp : option point) : Prop := forall q, cur = Some q -> cp = Some q.
+
+(** one iteration of serialize_ops (which consumes [o] and [n] operations after it) keeps the writer's
+    current_point below the standard's *)
+Lemma writer_cp_step cur (st : option point * option point) o rest args k cur2 n :
+  below cur (fst st) -> ser_head cur o rest = Ok (args, k, cur2, n) ->
+  below cur2 (fst (fold_left iso_cp_step (o :: firstn n rest) st)).
+Proof.
+  intros Hb H. destruct st as [cp start].
+  destruct o; cbn [ser_head] in H.
+  all: try (match type of H with context [match ?p with Some _ => _ | None => _ end] =>
+              match type of p with option prim => destruct p end end).
+  all: try (match type of H with context [match ?w with EvenOdd => _ | NonZero => _ end] => destruct w end).
+  all: try (match type of H with context [match ?c with CGray _ => _ | _ => _ end] => destruct c end).
+  all: try (inversion H; subst; clear H; cbn [firstn fold_left iso_cp_step fst]; first [exact Hb|intros q Hq; discriminate Hq]).
+  - (* Close *)
+    destruct rest as [|[] rest']; inversion H; subst; clear H; try (intros q Hq; discriminate Hq).
+    destruct w; inversion H1; subst; intros q Hq; discriminate Hq.
+  - (* MoveTo *) inversion H; subst. intros q Hq. exact Hq.
+  - (* LineTo *) inversion H; subst. intros q Hq. exact Hq.
+  - (* CurveTo *)
+    destruct (match cur with Some q => pt_eqb c1 q | None => false end);
+      [|destruct (pt_eqb c2 p)]; inversion H; subst; intros q Hq; exact Hq.
+  - (* WordSpacing *)
+    destruct rest as [|[] rest1]; try (inversion H; subst; exact Hb).
+    destruct rest1 as [|[] rest2]; try (inversion H; subst; exact Hb).
+    destruct rest2 as [|[] rest3]; try (inversion H; subst; exact Hb).
+  - (* Leading *)
+    destruct rest as [|[] rest1]; try (inversion H; subst; exact Hb).
+    destruct (feqb f (fl_neg (py t))); inversion H; subst; exact Hb.
+  - (* TextNewline *)
+    destruct rest as [|[] rest1]; inversion H; subst; exact Hb.
+Qed.
+
+(** … and `v` is written only when the first control point equals that current point *)
+Lemma writer_v_guard cur c1 c2 p rest args cur2 n :
+  ser_head cur (OCurveTo c1 c2 p) rest = Ok (args, Kv, cur2, n) ->
+  exists q, cur = Some q /\ pt_eqb c1 q = true /\ args = num2 c2 ++ num2 p.
+Proof.
+  cbn [ser_head]. destruct cur as [q|]; cbn beta iota.
+  - destruct (pt_eqb c1 q) eqn:E; [|destruct (pt_eqb c2 p)]; intros H; inversion H; subst.
+    exists q. repeat split. exact E.
+  - destruct (pt_eqb c2 p); intros H; inversion H.
+Qed.
+
+Theorem writer_cp_iso :
+  below None None /\
+  (forall cur (st : option point * option point) o rest args k cur2 n,
+     below cur (fst st) -> ser_head cur o rest = Ok (args, k, cur2, n) ->
+     below cur2 (fst (fold_left iso_cp_step (o :: firstn n rest) st))) /\
+  (forall cur (st : option point * option point) c1 c2 p rest args cur2 n,
+     below cur (fst st) -> ser_head cur (OCurveTo c1 c2 p) rest = Ok (args, Kv, cur2, n) ->
+     exists q, fst st = Some q /\ pt_eqb c1 q = true /\ args = num2 c2 ++ num2 p).
+Proof.
+  split; [intros q Hq; discriminate Hq|]. split; [exact writer_cp_step|].
+  intros cur st c1 c2 p rest args cur2 n Hb H.
+  destruct (writer_v_guard _ _ _ _ _ _ _ _ H) as (q & Hc & He & Ha).
+  exists q. split; [apply Hb; exact Hc|split; assumption].
+Qed.
